@@ -34,6 +34,21 @@ Fixpoint valid_hist (s : st) (ops : list op) : bool :=
 Definition reachable (s : st) : Prop :=
   exists ops, valid_hist st0 ops = true /\ s = run st0 ops.
 
+(* the consistency of roster, listing and creations in flight that every reachable state has
+   (lemma reachable_inv) and that every intermediate state inside a request keeps (lemma good_inv):
+   one roster entry per task; a task is owned, if at all, by the environment it was launched for;
+   the id of a creation in flight is used by no task and no listed environment; one listing entry
+   per environment; the tasks a listed environment owns are in its workflow's task list *)
+Record inv (s : st) : Prop := mkInv {
+  inv_nodup : NoDup (map t_id (s_roster s));
+  inv_owner : forall t e, In t (s_roster s) -> t_owner t = Some e -> fst (t_id t) = e;
+  inv_snap_r : forall p t, In p (s_snaps s) -> In t (s_roster s) -> fst (t_id t) <> fst p;
+  inv_snap_e : forall p x, In p (s_snaps s) -> In x (s_envs s) -> e_id x <> fst p;
+  inv_envs : NoDup (map e_id (s_envs s));
+  inv_bound : forall x t, In x (s_envs s) -> In t (s_roster s) -> t_owner t = Some (e_id x) ->
+                          In (t_id t) (bound_tids x)
+}.
+
 (* creations that nothing overlaps *)
 Definition serial_op (o : op) : bool :=
   match o with OSnap _ _ | OFinish _ _ => false | _ => true end.
@@ -64,10 +79,32 @@ Definition hooks_releasable (x : env) (r : roster) : Prop :=
 (* hypotheses on a workflow whose creation fails: no DESTROY hook task roles, and no task that is
    still staging when the failed creation is cleaned up *)
 Definition no_hook_tasks (c : cspec) : bool := forallb (fun r => negb (is_hook_task r)) (c_roles c).
-Definition none_staging (c : cspec) : bool := forallb (fun r => negb (N.eqb (r_launch r) 2)) (c_roles c).
+Definition none_staging (c : cspec) : bool := forallb (fun r => N.leb (r_launch r) 1) (c_roles c).
 
 (* "the environment left nothing behind" *)
 Definition nothing_left (e : N) (s' : st) : Prop :=
   find_env e (s_envs s') = None /\
   (forall t, In t (s_roster s') -> owner_is e t = false) /\
   (forall x, In x (s_envs s') -> e_id x <> e).
+
+(* ---------------- the full statements of C06 (refuted by the unchanged code, see props/C06.v) *)
+Definition destroy_leaves_nothing : Prop :=
+  forall s e force allow keep tfail s' u,
+    reachable s -> env_listed e s = true ->
+    step s (ODestroy e force allow keep tfail) = (s', u) -> o_rc u = 0 ->
+    nothing_left e s'.
+
+(* every task launched for a creation that failed, unless it had already terminated, got its KILL *)
+Definition launched_killed (e : N) (c : cspec) (u : out) : Prop :=
+  forall ir, In ir (iroles (c_roles c)) -> In (tid_of e (fst ir)) (o_launch u) ->
+             r_launch (snd ir) <> 1 -> In (tid_of e (fst ir)) (o_kills u).
+
+Definition failed_creation_leaves_nothing : Prop :=
+  forall s e c s' u,
+    reachable s -> wf_op s (OCreate e c) = true ->
+    step s (OCreate e c) = (s', u) -> o_rc u = 1 ->
+    nothing_left e s' /\ launched_killed e c u.
+
+(* full statement of the detector clause of C04 *)
+Definition detectors_exclusive : Prop :=
+  forall s, reachable s -> NoDup (active_dets (s_envs s)).
